@@ -15,7 +15,9 @@
 //	(a) no NEW pair of overlapping pools that are both allocatable (Allocatable=True, not disabled,
 //	    not deleting);
 //	(b) a pool that was allocatable and is still enabled and not deleting is not displaced by an
-//	    overlapping pool that is newer / not older and was not itself allocatable before;
+//	    overlapping pool that is newer / not older and was not itself allocatable before (a pool that
+//	    already overlapped an older-or-equal allocatable pool before the pass is legitimately demoted
+//	    in favour of that pool; it may then also lose its finalizer);
 //	(c) no pool becomes allocatable while an overlapping terminating pool (shown to the controller,
 //	    not administratively disabled) still exists afterwards;
 //	(d) a pool deleted while allocatable keeps the controller's finalizer (and so exists) while a
@@ -1036,6 +1038,26 @@ func (w *world) judge(pre, post map[string]pview, blks []*net.IPNet, err error, 
 		}
 	}
 
+	// demotedByOlder: the pool overlapped, already before the pass, another allocatable pool that is not
+	// newer and that stays allocatable (two overlapping allocatable pools can pre-exist after failed
+	// writes or stale-cache passes).  Resolving that in favour of the older pool is what the statement
+	// asks for: the loser may lose Allocatable and its finalizer, whoever else then fills the freed space.
+	demotedByOlder := func(n string) bool {
+		p, ok := pre[n]
+		if !ok || !p.alloc() {
+			return false
+		}
+		for m, o := range pre {
+			if m == n || !o.alloc() || !overlap(o.net, p.net) || o.Created > p.Created {
+				continue
+			}
+			if q, ok := post[m]; ok && q.alloc() {
+				return true
+			}
+		}
+		return false
+	}
+
 	// (b) an allocatable pool is not displaced by a newer pool
 	for _, n := range sortedNames(pre) {
 		p := pre[n]
@@ -1051,6 +1073,10 @@ func (w *world) judge(pre, post map[string]pview, blks []*net.IPNet, err error, 
 		}
 		q, ok := post[n]
 		if !ok || q.Disabled || q.Deleting || q.alloc() {
+			continue
+		}
+		if demotedByOlder(n) {
+			c.Count("lost_allocatable_to_older_pool", 1)
 			continue
 		}
 		explained := false
@@ -1119,7 +1145,7 @@ func (w *world) judge(pre, post map[string]pview, blks []*net.IPNet, err error, 
 				return
 			}
 		}
-		if p.alloc() && p.Fin && hasBlock(p) {
+		if p.alloc() && p.Fin && hasBlock(p) && !demotedByOlder(n) {
 			if q, ok := post[n]; ok && q.alloc() {
 				c.Count("finalizer_keep_checks", 1)
 				if !q.Fin {
